@@ -12,7 +12,7 @@ use super::flows::{recv_body_flow, recv_response_flow_cfg};
 use crate::driver::{AnyFlow, ReqCfg};
 use crate::engine::{explore, guarded, hex, show, unhex, Limits, Report, Sys, Tier, Violation};
 
-pub const RULE: &str = "(a) explicit-state search over (flow fingerprint, unconsumed window, remaining budget): actions 'append symbol' for every symbol and 'call' with output sizes {0,1,large}; = ALL strings over the alphabet up to the bound in ALL segmentations; body decoders (chunked with boundary stop off/on, Content-Length: 3, close-delimited) over bytes {0,1,a,F,g,;,SP,CR,LF,0x80} up to length 5 (thorough 6); head parsers (try_read_100 on a POST+Expect flow, try_response on GET and HEAD flows, continuing into the body state) over 25 tokens {HTTP/1.1,HTTP/1.0,HTTP/2,SP,100,200,302,99,1000,OK,CR,LF,CRLF,:,A,Content-Length,Transfer-Encoding,chunked,3,-1,Location,Connection,close,0x00,0xff} up to 3 (thorough 4) tokens. (b) 12 seed exchanges x every single fault (flip each bit of each byte, delete / duplicate each byte, insert each of {CR,LF,:,SP,;,0x00,0xff} at each position, replace each number by {-1, 2^64, 21 digits, 17 hex digits, empty}, splice every prefix of seed A onto every suffix of seed B for 4 seed pairs) x schedules {single call, 1-byte arrivals} x output sizes {1, large} x requests {GET, HEAD, POST+Expect HTTP/1.1, POST+Expect HTTP/1.0 with Connection: close}; thorough: also all double faults (bit flip pairs excluded) on the 4 shortest seeds. (c) 129/200/1000 fields, 65536- and 70000-byte header names, 1 MiB value, 100 KiB reason, 40-digit Content-Length, 30-digit chunk size, five simultaneous close conditions. distinct = distinct (entry point, final flow state class, error class) outcomes";
+pub const RULE: &str = "(a) explicit-state search over (flow fingerprint, unconsumed window, remaining budget): actions 'append symbol' for every symbol and 'call' with output sizes {0,1,large}; = ALL strings over the alphabet up to the bound in ALL segmentations; body decoders (chunked with boundary stop off/on, Content-Length: 3, close-delimited) over bytes {0,1,a,F,g,;,SP,CR,LF,0x80} up to length 5 (thorough 6); head parsers (try_read_100 on a POST+Expect flow, try_response on GET and HEAD flows, continuing into the body state) over 26 tokens {HTTP/1.1,HTTP/1.0,HTTP/2,SP,100,200,302,99,1000,OK,CR,LF,CRLF,:,comma,A,Content-Length,Transfer-Encoding,chunked,3,-1,Location,Connection,close,0x00,0xff} up to 3 (thorough 4) tokens. (b) 12 seed exchanges x every single fault (flip each bit of each byte, delete / duplicate each byte, insert each of {CR,LF,:,SP,;,comma,0x00,0xff} at each position, replace each number by {-1, 2^64, 21 digits, 17 hex digits, empty}, splice every prefix of seed A onto every suffix of seed B for 4 seed pairs) x schedules {single call, 1-byte arrivals} x output sizes {1, large} x requests {GET, HEAD, POST+Expect HTTP/1.1, POST+Expect HTTP/1.0 with Connection: close}; thorough: also all double faults (bit flip pairs excluded) on the 4 shortest seeds. (c) 129/200/1000 fields, 65536- and 70000-byte header names, 1 MiB value, 100 KiB reason, 40-digit Content-Length, 30-digit chunk size, five simultaneous close conditions. distinct = distinct (entry point, final flow state class, error class) outcomes";
 
 // ------------------------------------------------------------------------------------------
 // common oracle pieces
@@ -260,7 +260,7 @@ fn byte_alphabet() -> Vec<Vec<u8>> {
 
 fn token_alphabet() -> Vec<Vec<u8>> {
     let t: Vec<&[u8]> = vec![
-        b"HTTP/1.1", b"HTTP/1.0", b"HTTP/2", b" ", b"100", b"200", b"302", b"99", b"1000", b"OK", b"\r", b"\n", b"\r\n", b":", b"A", b"Content-Length", b"Transfer-Encoding", b"chunked", b"3", b"-1", b"Location", b"Connection", b"close", b"\x00", b"\xff",
+        b"HTTP/1.1", b"HTTP/1.0", b"HTTP/2", b" ", b"100", b"200", b"302", b"99", b"1000", b"OK", b"\r", b"\n", b"\r\n", b":", b",", b"A", b"Content-Length", b"Transfer-Encoding", b"chunked", b"3", b"-1", b"Location", b"Connection", b"close", b"\x00", b"\xff",
     ];
     t.into_iter().map(|x| x.to_vec()).collect()
 }
@@ -376,7 +376,7 @@ fn single_faults(seed: &[u8]) -> Vec<Vec<u8>> {
         out.push(dup);
     }
     for i in 0..=seed.len() {
-        for ins in [b'\r', b'\n', b':', b' ', b';', 0x00, 0xff] {
+        for ins in [b'\r', b'\n', b':', b' ', b';', b',', 0x00, 0xff] {
             let mut m = seed.to_vec();
             m.insert(i, ins);
             out.push(m);
@@ -453,6 +453,7 @@ fn drive(kind: &str, stream: &[u8], one_byte: bool, out_len: usize) -> Result<St
     let site = "stream";
     loop {
         steps += 1;
+        crate::engine::heartbeat();
         if steps > horizon {
             return Err(("C12:stream:livelock".into(), format!("no completion within {} calls (state {}, consumed {} of {})", horizon, f.name(), consumed, stream.len())));
         }
@@ -701,7 +702,6 @@ fn run_c(rep: &mut Report) {
 }
 
 pub fn run(tier: Tier) -> Report {
-    crate::engine::WD_LIMIT_S.store(900, std::sync::atomic::Ordering::Relaxed);
     let mut rep = Report::new();
     let t = std::time::Instant::now();
     run_c(&mut rep);
